@@ -551,6 +551,16 @@ class Run:
                 self.do_started(tid, op[1], ctx)
             elif kind == "hold":
                 await self.hold_native_requests(tid, op[1])
+            elif kind == "cic":
+                # what uncontended acquire() calls etc. start with: raises if the scope is
+                # effectively cancelled, returns at once otherwise - and must not spin when
+                # the cancellation it is waiting for will never be delivered (a shield went
+                # up in the meantime)
+                from anyio.lowlevel import checkpoint_if_cancelled
+
+                for _ in range(op[1]):
+                    self.window("checkpoint_if_cancelled")
+                    await self.blocking(tid, "cic", checkpoint_if_cancelled)
             elif kind == "scp":
                 # the yield that operations which must not be interrupted any more use
                 # (uncontended acquire, immediately completing stream operation, ...):
@@ -1613,7 +1623,7 @@ def execute(program: dict) -> dict:
                                                                    blocked.items()}}))  # fmt: skip
     except BusyLoop:
         r.aborted = None
-        r.V("C05", "busy-loop", {"cycles": info.get("cycles")})
+        r.V("ALL", "busy-loop", {"cycles": info.get("cycles")})
     except BaseExceptionGroup as e:
         r.aborted = None
         r.V("C02", "exception-escaped-program", {"exc": repr(e)[:300]})
